@@ -48,7 +48,7 @@ def run(prop, tier, seed, scratch, replay=None):
     cfgtext = open(os.path.join(vlib.SPEC, cfg)).read()
     acts = [x for x in ("NextAddr", "Extend", "Lookup", "DerivePath", "DeriveCache", "MarkUsed", "NewAccount", "ImportXpub", "Rename",
                         "Import", "Unlock", "Lock", "ChangePriv", "ChangePub", "ConvertWO", "SetSynced", "Restart") if '"%s"' % x in cfgtext]
-    cov = vlib.op_histogram(traces, acts, cfg)
+    cov = vlib.op_histogram(traces, acts, cfg, probe=lambda op: vlib.op_reachable(scratch, "AddrMgr.tla", cfg, op, cfg_subst=subst))
     simtr = scratch.path("sim.ndjson")
     sim = vlib.run_tlc(scratch, "AddrMgr.tla", "MC_AddrMgr_sim.cfg", cfg_subst={"NoRollback = {}": "NoRollback = " + NOROLLBACK[prop]}, simulate=NSIM[tier] // 2, depth=31, seed=seed,
                        out_traces=simtr, tag="sim", timeout=1800)
